@@ -340,6 +340,7 @@ func (s *c18Sys) observe(sn *c18Snap, est []int64) (p any) {
 		if s.tiny {
 			sn.door = append(sn.door, s.tl.DoorBits()...)
 			sn.incrs, _ = s.tl.Incrs()
+
 		}
 		for i, h := range s.probes {
 			if s.tiny {
@@ -370,6 +371,16 @@ func (s *c18Sys) restore(sn *c18Snap) {
 		}
 		copy(d, sn.door)
 		s.tl.SetIncrs(sn.incrs)
+		// the doorkeeper's public ElemNum counter is not part of the state (the code never reads
+		// it), but keep the invariant every real execution has: it is non-zero exactly when
+		// something was added since the last clear
+		var bits uint64
+		for _, w := range sn.door {
+			if w != 0 {
+				bits++
+			}
+		}
+		s.tl.SetDoorElemNum(bits)
 	}
 }
 
